@@ -121,6 +121,8 @@ def run(ctx):
         c1, s1 = stream(rng, 4, 3, 1, k + 6, rq, clears=0)
         c2, s2 = stream(rng, 4, 3, 100, k + 9, [("TakeSnapshot", k + 4, 1, 1, dict(sync=True)), ("TakeSnapshot", k + 5, 2, 1, dict(sync=True))], clears=0)
         c3, s3 = stream(rng, 4, 3, 200, k + 9, [("TakeSnapshot", k + 5, 1, 1, dict(sync=True))], clears=0)
+        # requests before the camera has ever connected (they are answered with an error) must leave the pipeline alone
+        c1["pre_dbus"] = ["CameraInfo", "TakeSnapshot", "TakeTestRecording", "CameraInfo"]
         try:
             evs = fam_e2e.run_e2e(ctx, binp0, dict(config=fam_e2e.toml(settings), prefiles=[], conns=[c1, c2, c3]), "exact%d" % k)
         except fam_e2e.DaemonCrash as dc:
@@ -137,6 +139,8 @@ def run(ctx):
         w, h = (160, 120) if k % 2 == 0 else (32, 24)
         reqs = [("TakeSnapshot", 2, 400 if tier == "quick" else 1500, 6), ("TakeTestRecording", 5, 3, 1), ("CameraInfo", 3, 50, 1)]
         c1, s1 = stream(rng, w, h, 1, 60 if tier == "quick" else 150, reqs, pace_ms=1, procs=rng.choice([4, 8, 16]))
+        if k % 2:
+            c1["pre_dbus"] = ["TakeTestRecording", "CameraInfo"]
         try:
             evs = fam_e2e.run_e2e(ctx, binp, dict(config=fam_e2e.toml(st), prefiles=[], conns=[c1]), "stress%d" % k)
         except fam_e2e.DaemonCrash as dc:
